@@ -425,7 +425,6 @@ func (w *World) verifyFunc(pi *PkgInfo, fd *ast.FuncDecl, c *Contract, mode stri
 				panic(r)
 			}
 		}
-		res.Obls = vc.obls
 		res.Uncontracted = sortedKeys(vc.uncontracted)
 		res.DepsUsed = sortedKeys(vc.depsUsed)
 		res.Dropped = sortedKeys(vc.dropped)
@@ -433,6 +432,7 @@ func (w *World) verifyFunc(pi *PkgInfo, fd *ast.FuncDecl, c *Contract, mode stri
 		res.Callees = sortedKeys(vc.calleesWithContract)
 		res.Paths = vc.paths
 		vc.finishObligations()
+		res.Obls = vc.obls
 	}()
 	vc.run()
 	return res
